@@ -1,7 +1,7 @@
 (* C17 — A Reorder'd injector may be listed anywhere. *)
 From Coq Require Import List Arith Bool Permutation.
 Import ListNotations.
-From NJ Require Import Base Registry Classify Select Reorder Machine Spec Bind ReorderProofs SelectProofs Refine Chain OrderProofs WfProofs.
+From NJ Require Import Base Registry Classify Select Reorder Machine Spec Bind ReorderProofs SelectProofs Refine Chain OrderProofs WfProofs MildReorder.
 
 (* Reordering never loses or duplicates a provider: the working list after reorder is a
    permutation of the list before (by provider id), for every list. *)
@@ -78,3 +78,41 @@ Theorem C17_inputs_as_in_C01_bound : forall c pl b,
     snd m = snd s /\ ss_w W (fst m) = sq_w W (fst s).
 Proof. exact chain_refines_bound. Qed.
 Print Assumptions C17_inputs_as_in_C01_bound.
+
+(* The chains the first sentence of C17 speaks of - only plain injectors (or providers outside the
+   per-invocation part) carry Reorder: the positional condition is then a theorem (the wrappers,
+   fallible injectors and the final function are not Reorder'd, so they keep their listed place
+   behind the invoke function), and the displaced chain refines the reference semantics of its
+   plan with nothing validated on the case. *)
+Theorem C17_refinement_when_only_injectors_are_reordered : forall c pl b f0,
+  bind_chain c = Ok (pl, b) -> assemble c = Ok f0 -> reorder_mild f0 = true -> d_reorder (bc_invoke c) = false ->
+  exists sp, splan_of (bc_te c) pl = Some sp /\
+  forall (W : Type) beh_fn beh_wrap steps (w0 : W),
+    let m := run_session W beh_fn beh_wrap b (mkSess W w0 (bd_base0 b) false true) steps in
+    let s := sem_session W beh_fn beh_wrap (te_errorT (bc_te c)) sp
+                         (mkSsess W w0 (base_env (pl_slots pl) (bd_base0 b)) false true) steps in
+    snd m = snd s /\ ss_w W (fst m) = sq_w W (fst s).
+Proof.
+  intros c pl b f0 Hb Ha Hm Hi. apply (chain_refines_bound c pl b Hb). apply (runs_after_invoke_mild c pl b f0 Hb Ha Hm Hi).
+Qed.
+Print Assumptions C17_refinement_when_only_injectors_are_reordered.
+
+Theorem C17_non_reorder_providers_keep_their_place : forall te funcs funcs',
+  reorder_funcs te funcs = Ok funcs' ->
+  map p_s (filter (fun p => negb (is_reorder p)) funcs') = map p_s (filter (fun p => negb (is_reorder p)) funcs).
+Proof. exact reorder_keeps_listed_providers. Qed.
+Print Assumptions C17_non_reorder_providers_keep_their_place.
+
+Definition ex17_ty (c : nat) : tyinfo := mkTy c false 1 0 true true false [] 0.
+Definition ex17_te : tyenv := mkTyenv [ex17_ty 10; ex17_ty 11; ex17_ty 12] 1 2 3 4 5.
+Definition ex17_pd (pid : nat) (s : shape) (reo : bool) : pdesc :=
+  mkPdesc pid 0 0 0 0 s false false false false false false reo false false false false false 0 [] None None [] 0 [1] false.
+Definition ex17_case : bcase :=
+  mkCase ex17_te [ex17_pd 1 (ShFn [] [10]) false; ex17_pd 2 (ShFn [11] [12]) true; ex17_pd 3 (ShFn [10] [11]) false; ex17_pd 4 (ShFn [12] []) false]
+         (ex17_pd 92 (ShFnPtr [] []) false) None [true].
+Example C17_mild_nonvacuous :
+  exists f0 pl b, assemble ex17_case = Ok f0 /\ reorder_mild f0 = true /\ bind_chain ex17_case = Ok (pl, b) /\
+    map p_pid (filter p_include (pl_funcs pl)) = [92; 1; 3; 2; 4].
+Proof. eexists. eexists. eexists. split; [vm_compute; reflexivity|]. split; [vm_compute; reflexivity|]. split; [vm_compute; reflexivity|reflexivity]. Qed.
+Print Assumptions C17_mild_nonvacuous.
+
